@@ -139,6 +139,56 @@ example :
     (run w0 [1, 0, 1, 0, 1, 0, 1, 0, 1, 0]).procs.map (·.pc) = [.done false, .done true] ∧
     (run w0 [0, 0, 0, 0, 0, 1, 1, 1, 1, 1]).procs.map (·.pc) = [.done true, .done true] := by decide
 
+/-! ### history limits (outside the interleaving model): what pruning may touch -/
+
+/-- Pruning for a create of revision `newest` only ever chooses older revisions: the record of a concurrent
+operation that has already created `newest` (or a later revision) is never removed, so the create that follows
+fails with already-exists as it does without a limit. -/
+theorem pruning_spares_concurrent_records (l : Helm.Ledger.Ledger) (maximum newest : Nat) :
+    ∀ r ∈ Helm.Ledger.toDeleteBelow l maximum newest, r < newest := by
+  intro r hr
+  unfold Helm.Ledger.toDeleteBelow at hr
+  split at hr
+  · simp at hr
+  · have h1 := List.mem_of_mem_take hr
+    have h2 := Helm.Ledger.mem_takeWhile_holds _ _ _ h1
+    simpa using h2
+
+/-- non-vacuity, and the defect the bound repairs: history `[v1 deployed, v2 pending-upgrade]` (the winner has
+created v2), the loser creates v2 under --history-max 1: without the bound the winner's record is the candidate,
+with it nothing is -/
+example :
+    Helm.Ledger.toDelete [⟨1, .deployed, 1⟩, ⟨2, .pendingUpgrade, 2⟩] 0 = [2] ∧
+    Helm.Ledger.toDeleteBelow [⟨1, .deployed, 1⟩, ⟨2, .pendingUpgrade, 2⟩] 0 2 = [] := by decide
+
+/-- When every stored revision is older than the one being created (any operation running alone), the bound
+changes nothing: the choice is the one the ledger theorems of C01 are about. -/
+theorem pruning_bound_inert_when_alone (l : Helm.Ledger.Ledger) (maximum newest : Nat)
+    (h : ∀ r ∈ l, r.rev < newest) :
+    Helm.Ledger.toDeleteBelow l maximum newest = Helm.Ledger.toDelete l maximum := by
+  unfold Helm.Ledger.toDeleteBelow Helm.Ledger.toDelete
+  split
+  · rfl
+  · have hall : ∀ x ∈ (Helm.Ledger.sortAsc (l.map (·.rev))).filter (fun r => some r ≠ (Helm.Ledger.deployed? l).map (·.rev)), x < newest := by
+      intro x hx
+      have hx' := (List.mem_filter.mp hx).1
+      have : x ∈ l.map (·.rev) := (Helm.Ledger.mem_sortAsc _ _).mp hx'
+      rcases List.mem_map.mp this with ⟨r, hr, rfl⟩
+      exact h r hr
+    have : ((Helm.Ledger.sortAsc (l.map (·.rev))).filter (fun r => some r ≠ (Helm.Ledger.deployed? l).map (·.rev))).takeWhile (· < newest)
+        = (Helm.Ledger.sortAsc (l.map (·.rev))).filter (fun r => some r ≠ (Helm.Ledger.deployed? l).map (·.rev)) := by
+      apply Helm.Ledger.takeWhile_all
+      intro x hx
+      simpa using hall x hx
+    simp only [this]
+
+/-- The bound in the source (regenerated from pkg/storage/storage.go at every run): Create hands the new
+revision to the pruning, and the pruning loop stops at it. -/
+theorem pruning_bound_in_source :
+    Helm.Gen.pruneCallArgs = "rls.Name, s.MaxHistory - 1, rls.Version" ∧
+    Helm.Gen.pruneStopCondition = "len(h)-len(toDelete) == maximum || rel.Version >= newest" := by
+  decide
+
 /-- The tie to the source of the in-progress test: the statuses `Status.IsPending` counts as an operation in
 flight are the three pending ones -- an upgrade refuses to start over any of them, the rollback of an atomic
 upgrade included (regenerated from pkg/release/v1/status.go at every run). -/
